@@ -65,6 +65,92 @@ def send_wrappers(facts):
     return out
 
 
+_NOPW = {}
+_ANNH = {}
+
+
+def transfers(facts, name, fl=None):
+    """the transfer points of a body: nop()-like calls whose result receives a Send annotation, either in this body or in
+    an annotating helper it is passed to.  Returns {nop block: payload operand}"""
+    b = facts.bodies[name]
+    fl = fl or Flow(facts, b, EXTRA)
+    nopw = nop_wrappers(facts)
+    annh = annotating_helpers(facts)
+    nop_like = set(NOPS) | set(nopw)
+    sent = set()
+    for bb, recv, aggs in send_sites(facts, b, fl):
+        for o in recv:
+            if o[0] == "call" and o[2] in nop_like:
+                sent.add(o[1])
+    for bb, t in b.calls():
+        cn = callee_name(t)
+        if cn in annh and not b.is_cleanup(bb):
+            for k in annh[cn]:
+                if k - 1 < len(t["args"]):
+                    for o in fl.origins(t["args"][k - 1], (bb, None)):
+                        if o[0] == "call" and o[2] in nop_like:
+                            sent.add(o[1])
+    out = {}
+    for nb in sent:
+        t = b.term(nb)
+        pay = None
+        for a in reversed(t["args"]):
+            if a[0] != "k" and b.local_ty(a[1][0]) in ("graphs::Node", "&graphs::Node"):
+                pay = a
+                break
+        out[nb] = pay
+    return out
+
+
+def nop_wrappers(facts):
+    """helpers that return an un-sent nop() to their caller: name -> set of nop blocks that are returned"""
+    if id(facts) in _NOPW:
+        return _NOPW[id(facts)]
+    out = {}
+    for name, b in mpc_bodies(facts):
+        if b.kind == "closure" or not has_node(b.local_ty(0)) or name in NOP_EXCEPTIONS:
+            continue
+        nops = [bb for bb, t in b.calls() if callee_name(t) in NOPS and not b.is_cleanup(bb)]
+        if not nops:
+            continue
+        fl = Flow(facts, b, EXTRA)
+        sent = set()
+        for bb, recv, aggs in send_sites(facts, b, fl):
+            for o in recv:
+                if o[0] == "call":
+                    sent.add(o[1])
+        rets = C.return_blocks(b)
+        returned = set()
+        ok = bool(rets)
+        for r in rets:
+            ors = {o for o in fl.origins([0], (r, None)) if not (o[0] == "call" and "from_residual" in o[2])}
+            ors = {o for o in ors if not (o[0] == "call" and o[2].endswith("Error::new"))}
+            if not ors or not all(o[0] == "call" and o[2] in NOPS and o[1] not in sent for o in ors):
+                ok = False
+            returned |= {o[1] for o in ors if o[0] == "call"}
+        if ok and returned:
+            out[name] = returned
+    _NOPW[id(facts)] = out
+    return out
+
+
+def annotating_helpers(facts):
+    """helpers that put a Send annotation on a node received as parameter: name -> set of parameter indices"""
+    if id(facts) in _ANNH:
+        return _ANNH[id(facts)]
+    out = {}
+    for name, b in mpc_bodies(facts):
+        if not any(callee_name(t) == "graphs::Node::add_annotation" for _, t in b.calls()):
+            continue
+        fl = Flow(facts, b, EXTRA)
+        for bb, recv, aggs in send_sites(facts, b, fl):
+            for o in recv:
+                if o[0] == "param" and o[2] == ():
+                    out.setdefault(name, set()).add(o[1])
+    _ANNH[id(facts)] = out
+    return out
+
+
 def mpc_bodies(facts, file_filter=None):
     for n, b in sorted(facts.bodies.items()):
         if b.crate != "ciphercore_base":
@@ -90,10 +176,19 @@ def run(facts, rep, tier, file_filter=None, pid="C02"):
     n_send = n_nop = n_src = 0
     senders = send_wrappers(facts)
     rep.tables["send_wrappers"] = sorted(senders)
+    nopw = nop_wrappers(facts)
+    rep.tables["nop_wrappers"] = sorted(nopw)
+    nop_like = set(NOPS) | set(nopw)
+    callers = {}
+    for cname, cb in mpc_bodies(facts):
+        for cbb, ct in cb.calls():
+            cn_ = callee_name(ct)
+            if cn_ in facts.bodies and not cb.is_cleanup(cbb):
+                callers.setdefault(cn_, []).append((cname, cbb))
     for name, b in mpc_bodies(facts, file_filter):
         calls = list(b.calls())
         has_ann = any(callee_name(t) == "graphs::Node::add_annotation" for _, t in calls)
-        nops = [bb for bb, t in calls if callee_name(t) in NOPS and not b.is_cleanup(bb)]
+        nops = [bb for bb, t in calls if callee_name(t) in nop_like and not b.is_cleanup(bb)]
         srcs = [bb for bb, t in calls if callee_name(t) in SOURCES and not b.is_cleanup(bb)]
         if not (has_ann or nops or srcs):
             continue
@@ -104,16 +199,51 @@ def run(facts, rep, tier, file_filter=None, pid="C02"):
         for bb, recv, aggs in sites:
             n_send += 1
             prod = sorted(set(o[2] if o[0] == "call" else o[0] for o in recv))
-            ok = bool(recv) and all(o[0] == "call" and o[2] in NOPS for o in recv)
+            ok = bool(recv) and all(o[0] == "call" and o[2] in nop_like for o in recv)
             for o in recv:
-                if o[0] == "call" and o[2] in NOPS:
+                if o[0] == "call" and o[2] in nop_like:
                     sent.add(o[1])
+            if not ok and recv and all((o[0] == "call" and o[2] in nop_like) or (o[0] == "param" and o[2] == ()) for o in recv):
+                # the node to annotate is handed in by the caller: the obligation moves to every call site
+                ok = True
+                for o in recv:
+                    if o[0] != "param":
+                        continue
+                    cs = callers.get(name, [])
+                    if not cs:
+                        ok = False
+                        prod.append("parameter _%d of a function without callers" % o[1])
+                    for (cname, cbb) in cs:
+                        cb = facts.bodies[cname]
+                        cfl = Flow(facts, cb, EXTRA)
+                        ct = cb.term(cbb)
+                        if o[1] - 1 >= len(ct["args"]):
+                            ok = False
+                            continue
+                        aor = cfl.origins(ct["args"][o[1] - 1], (cbb, None))
+                        if not aor or not all(x[0] == "call" and x[2] in nop_like for x in aor):
+                            ok = False
+                            prod.append("argument at %s: %s" % (cb.loc(cbb), sorted(set(x[2] if x[0] == "call" else x[0] for x in aor))))
             rep.ob(P + ".S", "%s|send#%d" % (name, ordn), ok,
                    "Send annotation on a node produced by %s%s" % (prod, "" if ok else
                    ": only a NOP transfers a value; annotating a computing node sends nothing"), b.loc(bb))
             ordn += 1
         # ---- N
         unsent = [bb for bb in nops if bb not in sent]
+        if name in nopw:
+            # this helper hands an un-sent NOP to its caller, where the call counts as a nop() producer
+            unsent = [bb for bb in unsent if bb not in nopw[name]]
+        # a nop passed on to an annotating helper (parameter-receiver case above) is sent there
+        passed = set()
+        for bb2, t2 in calls:
+            cn2 = callee_name(t2)
+            if cn2 in facts.bodies and cn2 in annotating_helpers(facts):
+                for k2 in annotating_helpers(facts)[cn2]:
+                    if k2 - 1 < len(t2["args"]):
+                        for o2 in fl.origins(t2["args"][k2 - 1], (bb2, None)):
+                            if o2[0] == "call":
+                                passed.add(o2[1])
+        unsent = [bb for bb in unsent if bb not in passed]
         allow, why = NOP_EXCEPTIONS.get(name, (0, ""))
         if "/mpc/" in b.file:
             for k, bb in enumerate(nops):
@@ -128,10 +258,12 @@ def run(facts, rep, tier, file_filter=None, pid="C02"):
                        b.loc(bb))
         # ---- Z
         if srcs and name not in SOURCE_DEFINERS:
-            def hook(fl_, bb, t, cn, sent=sent, b=b):
+            sent_all = set(sent) | set(transfers(facts, name, fl))
+
+            def hook(fl_, bb, t, cn, sent=sent_all, b=b):
                 if cn in SOURCES or cn in senders:
                     return "opaque"
-                if cn in NOPS:
+                if cn in nop_like:
                     return "opaque" if bb in sent else list(range(len(t["args"])))
                 if len(t["dest"]) == 1 and has_node(b.local_ty(t["dest"][0])):
                     return [i for i, a in enumerate(t["args"]) if a[0] != "k" and has_node(b.local_ty(a[1][0]))]
@@ -170,6 +302,12 @@ def run(facts, rep, tier, file_filter=None, pid="C02"):
         planner(facts, rep)
         optimizer_keeps_transfers(facts, rep)
         party_indices(facts, rep)
+        knowledge_typing(facts, rep)
+        local_status_is_disjunctive(facts, rep)
+        # every designated output party receives the result: the party tested for membership is the receiver (shared with C03.R)
+        from . import C03
+        from .C06 import _Sub
+        C03.reveal(facts, _Sub(rep, "C02"))
 
 
 # ----------------------------------------------------------------------------- C02.K
@@ -331,3 +469,113 @@ def party_indices(facts, rep):
     rep.analysed["send_literals_checked"] = n
     rep.analysed["send_operands_not_literal"] = uneval
     rep.floor("C02.P", "Send aggregates with literal parties", n, 10)
+
+
+# ----------------------------------------------------------------------------- C02.W
+# custom operations whose result is a 3-out-of-3 sharing (component i needs to be known to party i only); every other
+# protocol returns a replicated sharing (component i known to parties i and i-1)
+OUTPUT_3OF3 = ("MultiplyMPC", "DotMPC", "MatmulMPC", "GemmMPC", "MixedMultiplyMPC")
+
+
+def knowledge_typing(facts, rep):
+    from ..knowledge import Knowledge
+    rep.rule("C02.W", "ownership typing where literal indices make it decidable: (K, exact) = parties certain to be able to compute "
+                      "a node, exact only if every ingredient has a known holder (share/key component j of a protocol argument is "
+                      "held by parties j and j-1; a sent value is also known to its receiver).  A literal sender must know an exact "
+                      "payload; component i of a protocol's 3-tuple output, when exact, must be known to party i (and i-1 unless the "
+                      "operation returns a 3-out-of-3 sharing).  Inexact values are never judged")
+    judged = 0
+    seen_out = 0
+    for name, b in mpc_bodies(facts):
+        if "/mpc/" not in b.file or b.kind == "closure":
+            continue
+        kn = None
+        for bb, t in b.calls():
+            cn = callee_name(t) or ""
+            if b.is_cleanup(bb) or cn not in ("graphs::Node::set_as_output", "graphs::Graph::set_output_node"):
+                continue
+            kn = kn or Knowledge(facts, b)
+            a = t["args"][0 if cn.endswith("set_as_output") else 1]
+            for o in kn.fl.origins(a, (bb, None)):
+                if o[0] == "call" and (callee_name(b.term(o[1])) or "").endswith("create_tuple"):
+                    comp = kn.tuple_components(o[1])
+                    if not comp or len(comp) != 3:
+                        continue
+                    seen_out += 1
+                    three = any(x in name for x in OUTPUT_3OF3)
+                    for i, c in enumerate(comp):
+                        K, exact = kn.of_operand(c[0], c[1])
+                        if not exact:
+                            continue
+                        judged += 1
+                        need = {i} if three else {i, (i - 1) % 3}
+                        rep.ob("C02.W", "%s|output[%d]" % (name, i), need <= set(K),
+                               "output component %d is computable by parties %s (needs %s)" % (i, sorted(K), sorted(need))
+                               if need <= set(K) else
+                               "output component %d of the protocol is computable only by parties %s but must be held by %s: "
+                               "the other holder ends up with a value it cannot derive (e.g. a PRF evaluated with a key it does not have)"
+                               % (i, sorted(K), sorted(need)), b.loc(o[1]))
+        if any(callee_name(t) == "graphs::Node::add_annotation" for _, t in b.calls()):
+            kn = kn or Knowledge(facts, b)
+            for k, (nb, (s_, r_)) in enumerate(sorted(kn.sends.items())):
+                if s_ is None:
+                    continue
+                src = kn.node_args(b.term(nb))
+                if not src:
+                    continue
+                K, exact = kn.of_operand(src[0], (nb, None))
+                if not exact:
+                    continue
+                judged += 1
+                rep.ob("C02.W", "%s|sender#%d" % (name, k), s_ in K,
+                       "Send(%s,%s): the sender can compute the payload (known to %s)" % (s_, r_, sorted(K)) if s_ in K else
+                       "Send(%s,%s): party %s sends a value that only parties %s can compute" % (s_, r_, s_, sorted(K)), b.loc(nb))
+    rep.analysed["knowledge_typed_judgements"] = judged
+    rep.floor("C02.W", "exact ownership judgements", judged, 2)
+
+
+# ----------------------------------------------------------------------------- C02.L
+def local_status_is_disjunctive(facts, rep):
+    """the 3-out-of-3 status of a local operation's result is the disjunction of its inputs' statuses"""
+    rep.rule("C02.L", "local_operation_handler marks a node as un-reshared as soon as ONE dependency is un-reshared: the "
+                      "membership tests on the dependencies are combined by a recognised disjunction (flag that is only ever "
+                      "set to true / Iterator::any); a recognised conjunction (Iterator::all, flag cleared on a miss) is a "
+                      "violation; other spellings are not judged")
+    b = None
+    for n in facts.bodies:
+        if n.endswith("ResharingConfig::local_operation_handler"):
+            b = facts.bodies[n]
+    if not rep.anchor("C02.L", "ResharingConfig::local_operation_handler", b):
+        return
+    fam = facts.family(b.id)
+    conj, disj = [], []
+    for fb in fam:
+        for bb, t in fb.calls():
+            d = t["f"].get("def") or ""
+            if fb.is_cleanup(bb):
+                continue
+            if d == "std::iter::Iterator::all":
+                conj.append(fb.loc(bb))
+            if d == "std::iter::Iterator::any":
+                disj.append(fb.loc(bb))
+    # flag pattern: a bool local initialised false, assigned true in a loop under contains == true
+    fl = Flow(facts, b)
+    for l in range(len(b.locals)):
+        if b.local_ty(l) != "bool" or not b.var_name(l):
+            continue
+        vals = []
+        for di in fl.defs_of.get(l, []):
+            _, db, dj = fl.defs[di]
+            if db >= 0 and dj is not None:
+                rv = b.stmts(db)[dj][2]
+                if rv[0] == "use" and rv[1][0] == "k" and rv[1][4] in ("0", "1"):
+                    in_loop = any(db in blocks for _, blocks in C.loops(b))
+                    vals.append((rv[1][4] == "1", in_loop))
+        if vals and any(v and il for v, il in vals) and not any((not v) and il for v, il in vals) and any((not v) and not il for v, il in vals):
+            disj.append("flag `%s`" % b.var_name(l))
+        if vals and any((not v) and il for v, il in vals) and any(v and not il for v, il in vals):
+            conj.append("flag `%s` cleared inside the loop" % b.var_name(l))
+    rep.ob("C02.L", "local_operation_handler|disjunction", not conj,
+           "dependency statuses are combined disjunctively (%s)" % (disj or "no recognised combinator: not judged") if not conj else
+           "dependency statuses are combined with a conjunction (%s): a local operation mixing a 3-out-of-3 product with a "
+           "replicated value is treated as replicated and never reshared" % conj, b.loc())
